@@ -137,8 +137,16 @@ CHECKS.update({
     },
 })
 
+CHECKS.update({
+    "C11": {
+        "technique": "static analysis: THIR table / call-chain rules over the library's resolvers — sibling agreement of the per-family route queries, adaptor whitelist between Pipeline::responses() and collect_results, operand-origin of every irrc::Query built, recursive-variant check, print-chain of the CLI",
+        "text": "Decides ONLY the structural clauses the property's own rationale names ('losing a family, a member or a response'): wherever routes are requested for an AS they are requested for both address families of that same AS; every response stream reaches collect_results through `map` alone and is passed on unchanged; each resolver queries the very name it was asked to resolve (and, per member, the member the server returned); set membership uses the recursive query variants; the CLI prints every range of the result. These are necessary conditions — each can be broken by a one-token edit that compiles and passes the suite. NOT decided, and not decidable by this technique: the equality of the evaluated set with the RPSL denotation for any concrete IRR database (AST evaluation and set algebra in rpsl, pipelining and response parsing in irrc, prefix-set arithmetic in generic-ip — run-time values in external crates).",
+        "note": "irrc 0.1.0's Query enum was read by hand (no combined-family origin query); the check fails closed if Cargo.lock moves irrc. The set-equality clause of C11 is not applicable to static analysis and is not claimed.",
+        "design_ref": "DESIGN.md §3 C11",
+    },
+})
+
 NOT_APPLICABLE = {
-    "C11": "Equality between a computed prefix-range set and the RPSL denotation over arbitrary IRR data: run-time values in three external crates (rpsl, irrc, generic-ip); no structural necessary condition in this repository's source that is not a frozen copy of today's query plan.",
 }
 
 PENDING = "rule module not yet implemented in this revision of /verif (design in DESIGN.md §3); no claim is made until the check exists"
